@@ -43,6 +43,9 @@ type fileConfig struct {
 	// currentVersion is the version NewConfig validated against; Reload reuses
 	// it so that a reload accepts exactly what startup would accept.
 	currentVersion []string
+	// reloadMux serializes Reload calls (the timer and pubsub can trigger one
+	// at the same time); it is not held while the callbacks run.
+	reloadMux sync.Mutex
 }
 
 // ensure that fileConfig implements Config
@@ -660,9 +663,31 @@ func NewConfig(opts *CmdEnv, currentVersion ...string) (Config, error) {
 // is applied, and the warnings are returned as a *FileConfigError for which
 // HasErrors() is false.
 func (f *fileConfig) Reload(opts ...ReloadedConfigDataOption) error {
+	changed, cfgHash, rulesHash, err := f.reload(opts...)
+	if !changed {
+		return err
+	}
+
+	// call the callbacks without holding any lock -- we don't want callbacks to deadlock
+	f.mux.RLock()
+	callbacks := f.callbacks
+	f.mux.RUnlock()
+	for _, cb := range callbacks {
+		cb(cfgHash, rulesHash)
+	}
+	return err
+}
+
+// reload reads and validates the configuration and, if it differs from the
+// current one, stores it. Concurrent calls are serialized so that the same
+// change is not applied twice and an older read cannot overwrite a newer one.
+func (f *fileConfig) reload(opts ...ReloadedConfigDataOption) (changed bool, cfgHash, rulesHash string, err error) {
+	f.reloadMux.Lock()
+	defer f.reloadMux.Unlock()
+
 	cData, rData, err := newConfigAndRules(f.opts)
 	if err != nil {
-		return err
+		return false, "", "", err
 	}
 
 	newData := &ReloadedConfigData{
@@ -678,26 +703,23 @@ func (f *fileConfig) Reload(opts ...ReloadedConfigDataOption) error {
 	// means there were only warnings
 	cfg, warnings := newFileConfig(f.opts, newData.configs, newData.rules, f.currentVersion...)
 	if cfg == nil {
-		return warnings
+		return false, "", "", warnings
 	}
+
+	f.mux.Lock()
+	defer f.mux.Unlock()
 
 	// if nothing's changed, we're fine
 	if f.mainHash == cfg.mainHash && f.rulesHash == cfg.rulesHash {
-		return nil
+		return false, "", "", nil
 	}
 
-	// otherwise, update our state and call the callbacks
-	f.mux.Lock()
+	// otherwise, update our state; the caller runs the callbacks
 	f.mainConfig = cfg.mainConfig
 	f.mainHash = cfg.mainHash
 	f.rulesConfig = cfg.rulesConfig
 	f.rulesHash = cfg.rulesHash
-	f.mux.Unlock() // can't defer -- we don't want callbacks to deadlock
-
-	for _, cb := range f.callbacks {
-		cb(cfg.mainHash, cfg.rulesHash)
-	}
-	return warnings
+	return true, cfg.mainHash, cfg.rulesHash, warnings
 }
 
 // GetHashes returns the current hash values for the main and rules configs.
